@@ -340,11 +340,13 @@ class BitSet(BaseBitSet):
             del self.bits[newlength + 1:]
 
     def _zero_extra_bits(self, size):
+        # Clear every bit at position ``size`` or beyond
         bits = self.bits
-        spill = size - ((len(bits) - 1) * 8)
-        if spill:
-            mask = 2 ** spill - 1
-            bits[-1] = bits[-1] & mask
+        full = size >> 3
+        if full < len(bits):
+            bits[full] &= (1 << (size & 7)) - 1
+            for i in xrange(full + 1, len(bits)):
+                bits[i] = 0
 
     def _logic(self, obj, op, other):
         objbits = obj.bits
@@ -420,6 +422,10 @@ class BitSet(BaseBitSet):
 
     def invert_update(self, size):
         bits = self.bits
+        # Make sure the array covers the whole range being inverted
+        needed = bytes_for_bits(size)
+        if needed > len(bits):
+            bits.extend((0,) * (needed - len(bits)))
         for i in xrange(len(bits)):
             bits[i] = ~bits[i] & 0xFF
         self._zero_extra_bits(size)
